@@ -390,6 +390,18 @@ def fam_L(ty):
         out.append(program("L", ty, [("=", "x", 0), ("for", "i", args, [("aug", "+", "x", 1)]), ("ret", "i")], ["for", "loopvar-after-loop"]))
         out.append(program("L", ty, [("=", "x", 0), ("for", "i", args, [("aug", "+", "x", "i")]), ("ret", ("+", ("*", "x", 16), "i"))],
                            ["for", "loopvar-after-loop"]))
+    # range() is evaluated once at loop entry: assignments in the body to the operands of the bounds, or to the loop variable, do not change
+    # the trip count
+    out.append(program("L", ty, [("=", "x", 0), ("for", "i", ("a",), [("aug", "-", "a", 1), ("aug", "+", "x", 1)]), ("ret", ("+", ("*", "x", 16), "a"))],
+                       ["for", "bound-assigned-in-body"]))
+    out.append(program("L", ty, [("=", "x", 0), ("for", "i", ("b", ("+", "a", "b")), [("aug", "+", "b", 1), ("aug", "+", "x", "i")]), ("ret", ("+", ("*", "x", 16), "b"))],
+                       ["for", "bound-assigned-in-body"]))
+    out.append(program("L", ty, [("=", "x", 0), ("for", "i", ("b", "a"), [("aug", "-", "b", 2), ("aug", "+", "x", "i")]), ("ret", ("+", ("*", "x", 16), "b"))],
+                       ["for", "start-assigned-in-body"]))
+    out.append(program("L", ty, [("=", "x", 0), ("for", "i", ("a",), [("aug", "+", "i", 5), ("aug", "+", "x", "i")]), ("ret", "x")],
+                       ["for", "loopvar-assigned-in-body"]))
+    out.append(program("L", ty, [("=", "x", 0), ("for", "i", ("a",), [("for", "j", ("i",), [("aug", "+", "x", 1), ("aug", "+", "i", 1)])]), ("ret", "x")],
+                       ["for", "for-inner", "bound-assigned-in-body"]))
     return out
 
 
